@@ -14,6 +14,7 @@ import (
 	"github.com/prometheus/client_golang/prometheus"
 	"github.com/prometheus/client_golang/prometheus/testutil"
 
+	"github.com/grafana/dskit/kv"
 	"github.com/grafana/dskit/kv/consul"
 	"github.com/grafana/dskit/ring"
 	"github.com/grafana/dskit/services"
@@ -23,6 +24,7 @@ import (
 //
 //	C15.route <pdesc> <keys> <->                  ||  <ActivePartitionForKey per key> <GetKeysByPartition>
 //	C15.hist  <initial pdesc> <lifecyclers> <ops> ||  <res@pdesc after every op, joined by #>
+//	C15.cas   <initial pdesc> <lifecyclers> <conflicting write;handler> ||  as C15.hist (the handler's CAS function was re-run after the conflict)
 //	C15.loop  <initial pdesc> <lifecycler,create,remove> <script> || <res@pdesc after every action + one full tick>
 //	C15.repl  <pdesc> <instances> <healthy-states,timeout> || <replication sets | err>
 //	C15.mrepl <pdesc> <instances> <healthy-states,partition> || <instances in order;maxUnavailableZones | err>
@@ -555,6 +557,183 @@ func c15SlowWait(seed uint64, idx int) []string {
 	return []string{"C15.hist", encPDescOpt(c15Rebase(init, base), true), lcStr(a) + ";" + lcStr(b), strings.Join(ops, ";"), strings.Join(obs, "#")}
 }
 
+// c15RacingStore is a kv.Client that lets another actor write to the store between a run of the caller's CAS
+// function and the store's compare-and-swap: the first time the function returns a value to write, `inject`
+// performs the conflicting write on the underlying store; the caller's write then loses the compare and the
+// store calls the function again on the fresh value (what happens when two actors update the ring at once).
+type c15RacingStore struct {
+	kv.Client
+	inject func()
+	fired  bool
+	calls  int
+}
+
+func (s *c15RacingStore) CAS(ctx context.Context, key string, f func(in interface{}) (out interface{}, retry bool, err error)) error {
+	return s.Client.CAS(ctx, key, func(in interface{}) (interface{}, bool, error) {
+		s.calls++
+		out, retry, err := f(in)
+		if err == nil && out != nil && !s.fired {
+			s.fired = true
+			s.inject()
+		}
+		return out, retry, err
+	})
+}
+
+// c15CasConflict: one reconcile handler of a real lifecycler runs against a racing store; the conflicting write
+// is chosen to invalidate (or, as a control, not to invalidate) the decision the handler took on its first run.
+// Emitted as a two-step history (conflicting write, then the handler) with the ring after each.
+func c15CasConflict(e *env, r *rng) {
+	logger := log.NewNopLogger()
+	inner, closer := consul.NewInMemoryClient(ring.GetPartitionRingCodec(), logger, nil)
+	defer closer.Close()
+	ctx := context.Background()
+	const key = "pring"
+	base := time.Now().Unix()
+	multi := r.chance(1, 2)
+	own, target := int32(2), int32(r.intn(2))
+	other := 1 - target
+	oid := func(inst string, pid int32) string {
+		if multi {
+			return inst + "/" + itoa(int(pid))
+		}
+		return inst
+	}
+	modeOthers := r.chance(1, 2)
+	init := ring.NewPartitionRingDesc()
+	if modeOthers {
+		init.Partitions[own] = ring.PartitionDesc{Id: own, State: ring.PartitionActive, StateTimestamp: base - 1000, Tokens: []uint32{2001, 2002}}
+		init.Owners[oid("ing-a-0", own)] = ring.OwnerDesc{OwnedPartition: own, State: ring.OwnerActive, UpdatedTimestamp: base - 1000}
+		init.Partitions[target] = ring.PartitionDesc{Id: target, State: ring.PartitionInactive, StateTimestamp: base - 1000, Tokens: []uint32{uint32(target)*1000 + 1}}
+		if r.chance(1, 2) {
+			init.Partitions[other] = ring.PartitionDesc{Id: other, State: pick(r, []ring.PartitionState{ring.PartitionInactive, ring.PartitionActive}), StateTimestamp: base - 1000, Tokens: []uint32{uint32(other)*1000 + 1}}
+		}
+	} else {
+		init.Partitions[own] = ring.PartitionDesc{Id: own, State: ring.PartitionPending, StateTimestamp: base - 1000, Tokens: []uint32{2001, 2002}}
+		init.Owners[oid("ing-b-0", own)] = ring.OwnerDesc{OwnedPartition: own, State: ring.OwnerActive, UpdatedTimestamp: base - 1000}
+		if r.chance(1, 3) {
+			init.Owners[oid("ing-b-1", own)] = ring.OwnerDesc{OwnedPartition: own, State: ring.OwnerActive, UpdatedTimestamp: base - 1000}
+		}
+		init.Partitions[other] = ring.PartitionDesc{Id: other, State: ring.PartitionActive, StateTimestamp: base - 1000, Tokens: []uint32{uint32(other)*1000 + 1}}
+	}
+	initClone := c15Rebase(init, 0)
+	if err := inner.CAS(ctx, key, func(interface{}) (interface{}, bool, error) { return initClone, true, nil }); err != nil {
+		panic(err)
+	}
+	racing := &c15RacingStore{Client: inner}
+	mk := func(pid int32, inst string, store kv.Client) *c15LC {
+		c := &c15LC{pid: pid, instance: inst, multi: multi, waitCount: 1, waitDur: 5, deleteAfter: 5}
+		c.l = ring.NewPartitionInstanceLifecycler(ring.PartitionInstanceLifecyclerConfig{
+			PartitionID: c.pid, InstanceID: c.instance, MultiPartitionOwnership: c.multi,
+			WaitOwnersCountOnPending: c.waitCount, WaitOwnersDurationOnPending: time.Duration(c.waitDur) * time.Second,
+			DeleteInactivePartitionAfterDuration: time.Duration(c.deleteAfter) * time.Second, PollingInterval: time.Hour,
+		}, "verif", key, store, logger, nil)
+		return c
+	}
+	a := mk(own, "ing-a-0", racing) // the lifecycler whose handler is retried
+	b := mk(target, "ing-c-0", inner)
+	editor := ring.NewPartitionRingEditor(key, inner)
+	get := func() *ring.PartitionRingDesc {
+		v, err := inner.Get(ctx, key)
+		if err != nil {
+			panic(err)
+		}
+		return ring.GetOrCreatePartitionRingDesc(v)
+	}
+	lcStr := func(c *c15LC) string {
+		m := "0"
+		if c.multi {
+			m = "1"
+		}
+		return strings.Join([]string{itoa(int(c.pid)), c.instance, m, itoa(c.waitCount), itoa(c.waitDur), itoa(c.deleteAfter)}, ",")
+	}
+	var ops, obs []string
+	choice := r.intn(4)
+	racing.inject = func() {
+		old := get()
+		t0 := time.Now().Unix()
+		var op string
+		var err error
+		ts := func() int64 { // the timestamp the conflicting write stamped
+			cur := get()
+			for id, p := range cur.Partitions {
+				q := old.Partitions[id]
+				if q.State != p.State {
+					return p.StateTimestamp - base
+				}
+				if q.StateChangeLocked != p.StateChangeLocked {
+					return p.StateChangeLockedTimestamp - base
+				}
+			}
+			for id, o := range cur.Owners {
+				if q, ok := old.Owners[id]; !ok || q != o {
+					return o.UpdatedTimestamp - base
+				}
+			}
+			return t0 - base
+		}
+		if modeOthers {
+			switch choice {
+			case 0: // an owner registers for the partition about to be deleted
+				err = b.l.VerifWaitPartitionAndRegisterOwner(ctx)
+				op = fmt.Sprintf("W,1,%d", ts())
+			case 1: // the partition about to be deleted is re-activated
+				err = editor.ChangePartitionState(ctx, target, ring.PartitionActive)
+				op = fmt.Sprintf("E,%d,%d,%d", target, int(ring.PartitionActive), ts())
+			case 2: // control: an unrelated write (the decision stays valid)
+				err = editor.SetPartitionStateChangeLock(ctx, own, true)
+				op = fmt.Sprintf("L,%d,1,%d", own, ts())
+			default: // control: the partition is locked (still inactive, still without owners)
+				err = editor.SetPartitionStateChangeLock(ctx, target, true)
+				op = fmt.Sprintf("L,%d,1,%d", target, ts())
+			}
+		} else {
+			switch choice {
+			case 0: // the pending partition gets locked
+				err = editor.SetPartitionStateChangeLock(ctx, own, true)
+				op = fmt.Sprintf("L,%d,1,%d", own, ts())
+			case 1: // the pending partition is switched to inactive by somebody else
+				err = editor.ChangePartitionState(ctx, own, ring.PartitionInactive)
+				op = fmt.Sprintf("E,%d,%d,%d", own, int(ring.PartitionInactive), ts())
+			case 2: // an owner that was counted disappears
+				if multi {
+					err = editor.RemoveMultiPartitionOwner(ctx, "ing-b-0", own)
+					op = fmt.Sprintf("M,ing-b-0,%d", own)
+				} else {
+					err = editor.SetPartitionStateChangeLock(ctx, own, true)
+					op = fmt.Sprintf("L,%d,1,%d", own, ts())
+				}
+			default: // control: an unrelated write
+				err = editor.SetPartitionStateChangeLock(ctx, other, true)
+				op = fmt.Sprintf("L,%d,1,%d", other, ts())
+			}
+		}
+		ops = append(ops, fmt.Sprintf("%s@%d:%d", op, t0-base, time.Now().Unix()-base))
+		obs = append(obs, c15Err(err)+"@"+encPDescOpt(c15Rebase(get(), base), true))
+	}
+	typ, hop := "owned-partition", "O"
+	if modeOthers {
+		typ, hop = "other-partitions", "R"
+	}
+	before := testutil.ToFloat64(a.l.VerifReconcilesFailedTotal().WithLabelValues(typ))
+	t0 := time.Now().Unix()
+	if modeOthers {
+		a.l.VerifReconcileOtherPartitions(ctx, time.Unix(base, 0))
+	} else {
+		a.l.VerifReconcileOwnedPartition(ctx, time.Unix(base, 0))
+	}
+	res := "ok"
+	if testutil.ToFloat64(a.l.VerifReconcilesFailedTotal().WithLabelValues(typ)) != before {
+		res = "failed"
+	}
+	if !racing.fired || racing.calls != 2 {
+		panic(fmt.Sprintf("c15CasConflict: no retry was provoked (fired=%v calls=%d)", racing.fired, racing.calls))
+	}
+	ops = append(ops, fmt.Sprintf("%s,0,0@%d:%d", hop, t0-base, time.Now().Unix()-base))
+	obs = append(obs, res+"@"+encPDescOpt(c15Rebase(get(), base), true))
+	e.emit("C15.cas", encPDescOpt(c15Rebase(init, base), true), lcStr(a)+";"+lcStr(b), strings.Join(ops, ";"), strings.Join(obs, "#"))
+}
+
 // c15Loop drives the REAL service of one lifecycler (StartAndAwaitRunning: starting + the select loop of `running`
 // with a 3 ms ticker; ChangePartitionState through the actor channel; StopAndAwaitTerminated: ctx.Done + stopping)
 // next to editor calls, on an in-memory KV. After every external action it waits until one complete reconcile
@@ -937,5 +1116,9 @@ func runC15(e *env) {
 	r = newRng(e.seed, 1503)
 	for i := 0; i < 2500*e.scale; i++ {
 		c15Repl(e, r)
+	}
+	r = newRng(e.seed, 1504)
+	for i := 0; i < 300*e.scale; i++ {
+		c15CasConflict(e, r)
 	}
 }
